@@ -15,6 +15,8 @@ def gen_c13(rnd, n, thorough=False):
             kind = 'copysession'
         if c == 4:
             kind = 'gensession'
+        if c == 5:
+            kind = 'rawduring'
         lines = []
         if kind == 'failed_open':
             # every way Open can fail after the descriptor was obtained (and a control that succeeds)
@@ -73,6 +75,11 @@ def gen_c13(rnd, n, thorough=False):
             lines.append("clicopy src=s:a.wsp dest=d:a.wsp from=0 until=0 archive=-1 copynan=0 m=2 x=3f000000 layout=%s remote=1 intruder=@-3:%016x,@-5:%016x watch=@-3" % (
                 lay_csv(layout), fbits(100.0), fbits(200.0)))
             observe_all(lines, 'd/a.wsp', layout)
+            tags = {'kind': kind}
+        elif kind == 'rawduring':
+            # a raw view started in the middle of a writer's session shows a session boundary
+            wl = waitopen_lines(rnd)
+            lines += wl[:-1] + ["rawduring w %s" % wl[-1].split()[-1]]
             tags = {'kind': kind}
         elif kind == 'gensession':
             # two generate commands for one missing path, overlapping: exactly one creates the file
